@@ -58,4 +58,10 @@ def traces(ctx, which, shards, runs, maxlen):
         for j, line in enumerate(f):
             if j < 3:
                 ctx.sample({"stage": "trace", "event": json.loads(line)})
-    return all(oks)
+    # positions beyond 2^16: one long run judged run by run without history (LongTrace); the thorough tier uses a sequence
+    # that is clean almost everywhere (tens of thousands of windows), the quick tier one with a long ambiguous middle part
+    lt = ctx.path("%s_long.ndjson" % which)
+    vlib.kvh(["trace", "minlong", ctx.seed, 68500, 1 if which == "kmermin" else 0, 1 if ctx.thorough() else 0], out=lt)
+    okl = vlib.validate_trace(ctx, "LongTrace", lt, "a 68 500-base sequence (positions beyond 2^16), every run judged from the input bytes", "minit",
+                              timeout=3000)
+    return all(oks) and okl
